@@ -1,5 +1,7 @@
-(* C16/Refuted.v -- full statements that the faithful model (= the code) violates: machine-checked
-   witnesses of the known findings of property C16 (tools/props/C16.findings.json). *)
+(* C16/Refuted.v -- the four defects of property C16 found on the unchanged tree and repaired in /repo
+   (tools/props/C16.findings.json, status "fixed").  The model in Model.v follows the repaired code; this
+   file keeps, as regression facts, (a) the pre-fix ring operations and the witnesses on which they broke
+   the property, (b) the behaviour of the repaired model on the same inputs. *)
 From GocqlV Require Import Lib.Base C16.ZMap C16.Model C16.Spec.
 
 Definition plain (id a : Z) : hostinfo :=
@@ -8,70 +10,73 @@ Definition with_bcast (h : hostinfo) (b : Z) : hostinfo :=
   mkHost (h_id h) (h_peer h) (Some b) (h_listen h) (h_rpc h) (h_pref h) (h_conn h) (h_port h) (h_dc h) (h_rack h) (h_tokens h) (h_up h).
 Definition accept_all : cfg := mkCfg (fun _ => true) false false.
 
-(* F-C16-1 (finding shared-address-host-removed), ring level: add(id1,X); add(id2,X); remove(id1):
-   host id2 is in the ring with address X, yet the lookup by address X answers (nil, false). *)
-Theorem index_shadow_refuted :
-  exists ops, let r := ring_run empty_ring ops in
-    get_host r 2 = Some (plain 2 7) /\ n2n_key (plain 2 7) = 7 /\ get_by_ip r 7 = (None, false)
-    /\ ~ lookups_consistent r.
-Proof.
-  exists [OAddIfMissing (plain 1 7); OAddIfMissing (plain 2 7); ORemove 1].
-  split; [reflexivity|]. split; [reflexivity|]. split; [reflexivity|].
-  intros [_ [H _]]. specialize (H 7). vm_compute in H. apply (H 2 (plain 2 7)); reflexivity.
-Qed.
+(* ---- pre-fix ring.removeHost and ring.addOrUpdate *)
+Definition remove_host_ring_old (r : ring) (id : Z) : ring :=
+  match mget id (hosts r) with
+  | Some h => mkRing (mdel id (hosts r)) (mdel (n2n_key h) (ip2id r)) (remove_first id (hlist r))
+  | None => r
+  end.
 
-(* the same through a refresh: the ring knows id1 at X; the cluster reports id2 at X (a dead node
-   replaced by a new host id on the same address).  The refresh succeeds, id2 is known, and cannot be found
-   by its address. *)
-Theorem refresh_shadow_refuted :
-  exists s report s', run accept_all empty_sess [LInit [plain 1 7]] = Some s
-    /\ refresh accept_all s report = (s', ROk)
-    /\ get_host (s_ring s') 2 = Some (plain 2 7) /\ get_by_ip (s_ring s') 7 = (None, false)
-    /\ ~ lookups_consistent (s_ring s').
-Proof.
-  eexists. exists [plain 2 7]. eexists. split; [vm_compute; reflexivity|]. split; [vm_compute; reflexivity|].
-  split; [reflexivity|]. split; [reflexivity|].
-  intros [_ [H _]]. specialize (H 7). vm_compute in H. apply (H 2 (plain 2 7)); reflexivity.
-Qed.
+Definition add_or_update_old (r : ring) (h : hostinfo) : ring :=
+  match add_if_missing r h with
+  | Some (r', e, true) => mkRing (mset (h_id h) (update e h) (hosts r')) (ip2id r') (hlist r')
+  | Some (r', _, false) => r'
+  | None => r
+  end.
 
-(* finding address-key-stale-after-update, ring level: a host indexed under its peer address gets a
-   different broadcast address through addOrUpdate; after its removal the old key dangles and the lookup
-   answers (nil, true). *)
-Theorem stale_key_refuted :
-  exists ops, get_by_ip (ring_run empty_ring ops) 1 = (None, true).
-Proof. exists [OAddIfMissing (plain 1 1); OAddOrUpdate (with_bcast (plain 1 1) 2); ORemove 1]. reflexivity. Qed.
+Definition add_new (r : ring) (h : hostinfo) : ring :=
+  match add_if_missing r h with Some (r', _, _) => r' | None => r end.
 
-(* ... on which handleNodeDown / handleNodeUp dereference nil: a history (control connection set up to a
-   node that reports another broadcast address than its peers do, the node then leaves, a DOWN event for
-   its old address arrives) on which event processing panics. *)
-Theorem events_crash_refuted :
-  exists ls, run accept_all empty_sess ls = None.
-Proof.
-  exists [LInit [plain 1 1]; LControl (with_bcast (plain 1 1) 2); LRefresh []; LEvents [EStatus 2 1]].
-  reflexivity.
-Qed.
+(* F-C16-1 (shared-address-host-removed), before the fix: add(id1,X); add(id2,X); remove(id1): host id2 is
+   in the ring with address X, yet the lookup by address X answered (nil, false) *)
+Example index_shadow_prefix :
+  let r := remove_host_ring_old (add_new (add_new empty_ring (plain 1 7)) (plain 2 7)) 1 in
+  get_host r 2 = Some (plain 2 7) /\ get_by_ip r 7 = (None, false).
+Proof. split; reflexivity. Qed.
 
-(* finding refresh-duplicate-host-id: the same host id twice in the accepted report: the refresh
-   stops with ErrCannotFindHost, later rows are not added (id 3) and nothing vanished is removed (id 9). *)
-Theorem refresh_duplicate_refuted :
-  exists s report s', run accept_all empty_sess [LInit [plain 1 1; plain 2 2; plain 9 9]] = Some s
-    /\ refresh accept_all s report = (s', RErrCannotFind)
-    /\ In 3 (reported_ids accept_all report) /\ ~ knows (s_ring s') 3
-    /\ ~ In 9 (reported_ids accept_all report) /\ knows (s_ring s') 9.
-Proof.
-  eexists. exists [plain 1 1; plain 2 2; plain 2 2; plain 3 3]. eexists.
-  split; [vm_compute; reflexivity|]. split; [vm_compute; reflexivity|].
-  split; [vm_compute; tauto|]. split; [vm_compute; congruence|].
-  split; [vm_compute; intuition discriminate | vm_compute; congruence].
-Qed.
+(* after the fix, whichever of the two is removed the other one is found under X *)
+Example index_shadow_fixed :
+  get_by_ip (ring_run empty_ring [OAddIfMissing (plain 1 7); OAddIfMissing (plain 2 7); ORemove 1]) 7 = (Some (plain 2 7), true)
+  /\ get_by_ip (ring_run empty_ring [OAddIfMissing (plain 1 7); OAddIfMissing (plain 2 7); ORemove 2]) 7 = (Some (plain 1 7), true).
+Proof. split; reflexivity. Qed.
 
-(* finding row-without-usable-address-panics: a system.peers row none of whose address columns holds a
-   usable address makes the refresh panic (hostInfoFromMap calls ConnectAddress before isValidPeer is
-   consulted), whatever else the report contains. *)
-Theorem row_without_address_refuted :
-  exists local rows s', run accept_all empty_sess [LInit [plain 1 1]] = Some s'
-    /\ get_hosts local rows = None /\ snd (refresh_rows accept_all s' local rows) = RPanic.
-Proof.
-  exists (plain 1 1), [plain 2 2; mkHost 3 (Some 0) None None None None None 9042 1 1 (Some [3]) true].
-  eexists. split; [vm_compute; reflexivity|]. split; reflexivity.
-Qed.
+(* the same through a refresh: a dead node replaced by a new host id on the same address *)
+Example refresh_shadow_fixed :
+  exists s s', run accept_all empty_sess [LInit [plain 1 7]] = Some s
+    /\ refresh accept_all s [plain 2 7] = (s', ROk)
+    /\ get_by_ip (s_ring s') 7 = (Some (plain 2 7), true) /\ mkeys (hosts (s_ring s')) = [2].
+Proof. eexists. eexists. split; [vm_compute; reflexivity|]. split; [vm_compute; reflexivity|]. split; reflexivity. Qed.
+
+(* address-key-stale-after-update, before the fix: a host indexed under its peer address got another
+   broadcast address through addOrUpdate; after its removal the old key dangled: (nil, true) *)
+Example stale_key_prefix :
+  get_by_ip (remove_host_ring_old (add_or_update_old (add_new empty_ring (plain 1 1)) (with_bcast (plain 1 1) 2)) 1) 1 = (None, true).
+Proof. reflexivity. Qed.
+
+(* after the fix the host is re-indexed under its new address, and nothing dangles after its removal *)
+Example stale_key_fixed :
+  let r := ring_run empty_ring [OAddIfMissing (plain 1 1); OAddOrUpdate (with_bcast (plain 1 1) 2)] in
+  fst (get_by_ip r 2) = get_host r 1 /\ get_host r 1 <> None /\ get_by_ip r 1 = (None, false)
+  /\ ip2id (ring_run r [ORemove 1]) = [].
+Proof. repeat split; try reflexivity. vm_compute. discriminate. Qed.
+
+(* the history on which event handling used to panic now runs *)
+Example events_crash_fixed :
+  run accept_all empty_sess [LInit [plain 1 1]; LControl (with_bcast (plain 1 1) 2); LRefresh []; LEvents [EStatus 2 1]] <> None.
+Proof. vm_compute. discriminate. Qed.
+
+(* refresh-duplicate-host-id: the same host id twice in the report used to end the refresh with
+   ErrCannotFindHost; now the first report counts, later rows are added (3) and vanished hosts removed (9) *)
+Example refresh_duplicate_fixed :
+  exists s s', run accept_all empty_sess [LInit [plain 1 1; plain 2 2; plain 9 9]] = Some s
+    /\ refresh accept_all s [plain 1 1; plain 2 2; plain 2 5; plain 3 3] = (s', ROk)
+    /\ mkeys (hosts (s_ring s')) = [1; 2; 3] /\ get_host (s_ring s') 2 = Some (plain 2 2).
+Proof. eexists. eexists. split; [vm_compute; reflexivity|]. split; [vm_compute; reflexivity|]. split; reflexivity. Qed.
+
+(* row-without-usable-address-panics: such a row used to panic inside hostInfoFromMap; now GetHosts
+   fails, the refresh returns the error and the session is unchanged *)
+Example row_without_address_fixed :
+  exists s, run accept_all empty_sess [LInit [plain 1 1]] = Some s
+    /\ refresh_rows accept_all s (plain 1 1) [plain 2 2; mkHost 3 (Some 0) None None None None None 9042 1 1 (Some [3]) true]
+       = (s, RErrReport).
+Proof. eexists. split; [vm_compute; reflexivity | reflexivity]. Qed.
